@@ -10,6 +10,10 @@ def register(COMPONENTS, g):
                             600 if tier == "quick" else 3000)
     COMPONENTS["hash"] = comp_hash
 
+    def comp_graph(tier, seed):
+        return comp_generic("graph", tier, seed, NPROC, [], "graph", 900 if tier == "quick" else 3000)
+    COMPONENTS["graph"] = comp_graph
+
 
 def register_props(PROPS, g):
     hash_rule = ("real files under a private root: all permutations of small base lists (with duplicates and directories), "
@@ -22,6 +26,14 @@ def register_props(PROPS, g):
                                     "C04_injective additionally assumes the (hash ++ path) items in play are prefix-free and non-empty (necessary for the code as written, see DESIGN.md C04)",
                                     "the executable model uses a Gallina SHA-256 (Sha256.v), compared with crypto/sha256 through every digest of this run"],
                     "trusted_extra": ["os.Open/Stat/io.Copy are abstracted as a map path -> Regular content | Directory | Unreadable"]}
+    PROPS["C03"] = {"components": ["graph"], "oracle": ["C03"], "decode": None,
+                    "nontrivial": ("distinct_nontrivial", "cases whose selected task set (closure of the request) has at least two tasks"),
+                    "rule": "spokfiles generated from dependency graphs, parsed, loaded with file.New and run with SpokFile.Run and a recording runner; "
+                            "every digraph incl. self-loops on 1..3 tasks x every request list (exhaustive), 4-task graphs (sampled in quick, all 65536 in thorough), "
+                            "sampled graphs up to 8 tasks with undefined names, duplicate definitions and failing commands; each case run 6 times so map order varies",
+                    "assumptions": ["Go's map/set iteration order is an arbitrary permutation oracle (theorems hold for all of them)",
+                                    "task execution is sequential in the computed order (it is a plain loop in SpokFile.run)"],
+                    "trusted_extra": ["the observed execution order of the real spok is validated with the extracted checker valid_order (C03_checker)"]}
     PROPS["C18"] = {"components": ["hash"], "oracle": ["C18"], "decode": None,
                     "nontrivial": ("distinct_nontrivial", "distinct path lists with at least two entries"),
                     "rule": hash_rule + "; plus 20 lists with a file removed while the list is hashed (implementation only)",
